@@ -2,6 +2,7 @@
 //! This binary NEVER decides a property: it is run after an obligation has failed, to turn the
 //! failure into a concrete input on the real code, and on every run to validate the cheap
 //! trusted std facts the proofs assume.
+mod c01;
 mod c03;
 mod c04;
 mod c16;
@@ -24,6 +25,7 @@ fn main() {
             let found: Vec<util::Witness> = match prop {
                 "C16" => c16::search(obl).into_iter().collect(),
                 "C17" => c17::search(obl),
+                "C01" | "C02" => c01::search(prop),
                 "C03" => c03::search(obl),
                 "C04" => c04::search(obl),
                 _ => { eprintln!("no witness search for {prop}"); std::process::exit(2) }
@@ -38,6 +40,8 @@ fn main() {
             let r = match (prop.as_str(), input) {
                 ("C16", Some(i)) => c16::check_one(&i),
                 ("C17", Some(i)) => c17::check_one(&i),
+                ("C01", Some(i)) => c01::check_one("C01", &i),
+                ("C02", Some(i)) => c01::check_one("C02", &i),
                 ("C03", Some(i)) => c03::check_one(&i),
                 ("C04", Some(i)) => c04::check_one(&i),
                 _ => { println!("REPLAY: nothing to re-run (no concrete input in file)"); std::process::exit(0) }
